@@ -130,6 +130,20 @@ func scenarios(cfg out.Config, r *rng.R, raceMode bool) []scenario {
 	add("corpus", "GET", 2, reqGqlNames, "plain", "gql-get-qf")
 	add("corpus", "POST", 1, reqGqlNames, "post", "gql-get", "plain")
 
+	// ---- the shadow factory: regular backends that replicate the body next to shadow backends
+	// that would not; what the regular ones are sent must not depend on the shadow siblings
+	shadow := func(m string, cc int, rq reqSpec, nreg int, names ...string) {
+		add("shadow", m, cc, rq, names...)
+		res[len(res)-1].shadowFrom = nreg
+	}
+	shadow("POST", 1, reqB, 2, "post", "put", "plain")
+	shadow("POST", 1, reqB, 2, "post", "post", "head", "gql-get")
+	shadow("POST", 2, reqB, 2, "gql-mut", "post", "plain")
+	shadow("GET", 1, reqB, 2, "put", "plain", "plain")
+	shadow("POST", 1, reqB, 3, "post", "patch", "purge", "lower-get")
+	shadow("GET", 1, reqA, 2, "plain", "hf", "post")
+	shadow("POST", 1, reqBadBody, 2, "gql-mut", "post", "gql-post")
+
 	// ---- exhaustive small scope: singles and ordered pairs
 	ccs := []int{1, 2}
 	for _, s := range shapes {
